@@ -23,8 +23,9 @@ ASSUMPTIONS = ["vectors are 1-d numpy (masked) arrays of equal length, as the fu
 
 FLAGS = [1, 2, 3, 4, 9]
 NONFLAGS_INT = [0, 5, 6, 7, 8, 200]
-NONFLAGS_SIGNED = [0, 5, 7, 200, -1, -4, -6, -7, -8, -9, 10, 11, 13]
-NONFLAGS_FLOAT = [0.0, 5.0, 7.0, 200.0, float("nan"), 2.5, -1.0, -6.0, -7.0, -8.0, -9.0, 10.0, 1e9]
+# (values congruent to a flag modulo 256 / 65536 are non-flags too: a narrowing cast must not turn them into flags)
+NONFLAGS_SIGNED = [0, 5, 7, 200, -1, -4, -6, -7, -8, -9, 10, 11, 13, 257, 260, 265, 513, 65545, -252, -247, 2 ** 32 + 4]
+NONFLAGS_FLOAT = [0.0, 5.0, 7.0, 200.0, float("nan"), 2.5, -1.0, -6.0, -7.0, -8.0, -9.0, 10.0, 1e9, 260.0, 265.0, 3.999, 4.5]
 
 
 def _cmp():
